@@ -16,7 +16,7 @@ func C06(e *simkern.Env) {
 		maxOps = 10
 	}
 	ops := pipew.GenOps(tp, pipew.GenCfg{MinOps: 1, MaxOps: maxOps, OnlyStream: true, FailBias: 5, InitFail: true,
-		Cancel: true, Cast: true, WriteAhead: true, Levels: true, MaxTurns: 7, NonceBase: 2000, EmitMeta: true, InputMeta: true})
+		Cancel: true, Cast: true, WriteAhead: true, Levels: true, MaxTurns: 7, NonceBase: 2000, EmitMeta: true, InputMeta: true, AfterCancel: true, ZeroRows: true})
 	kn := pipew.DrawKnobs(tp)
 	e.Knob("frag", kn.Frag)
 	e.Knob("yield_on_write", kn.YieldOnWrite)
@@ -209,9 +209,14 @@ func streamJudge(e *simkern.Env, prefix string, i int, r *pipew.OpResult, withRe
 		return bad("cancel-hook-count", "cancel hook ran %d times, expected %d", rec.CancelCalls, wantCancel)
 	}
 	if op.StreamKind == "exchange" {
+		for k, ty := range rec.InputTypes {
+			if ty != "int64" {
+				return bad("input-not-cast-to-declared-schema", "exchange %d: the state received a column of type %s, the declared input schema says int64", k, ty)
+			}
+		}
 		for k, s := range rec.InputSums {
-			if s != pipew.InputSum(k) {
-				return bad("input-out-of-order", "exchange %d saw input sum %d, expected %d", k, s, pipew.InputSum(k))
+			if s != op.SumOf(k) {
+				return bad("input-out-of-order", "exchange %d saw input sum %d, expected %d", k, s, op.SumOf(k))
 			}
 		}
 	}
